@@ -137,6 +137,34 @@ def check(prop, tier, seed, t0):
     for l in ls:
         tasks.append(dict(kind='lemma', name=l.name, timeout=timeout))
     results = run.run_tasks(tasks)
+    # modular proofs rest on the contracts of the callees they use: every such callee is verified in this check too (to a fixpoint),
+    # so that a change inside a callee that breaks this property is reported by this property's check
+    verified = set(c.target for c in cs if not c.assumed)
+    dependency_fns = set()
+    for _round in range(4):
+        used_now = set()
+        for res in results:
+            if res.get('status') == 'ok':
+                used_now |= set(res.get('used_contracts', []))
+        todo = []
+        for t in sorted(used_now - verified):
+            c = reg.get(t)
+            if c is None or c.assumed:
+                continue
+            todo.append(c)
+        if not todo:
+            break
+        more = []
+        for c in todo:
+            verified.add(c.target)
+            dependency_fns.add(c.target)
+            fnd = [f for f in known['findings'] if f.get('target') == c.target]
+            if c.shards > 1:
+                for k in range(c.shards):
+                    more.append(dict(kind='fn', name=c.target, timeout=timeout, findings=fnd, shard=(k, c.shards)))
+            else:
+                more.append(dict(kind='fn', name=c.target, timeout=timeout, findings=fnd))
+        results.extend(run.run_tasks(more))
     # plug-in engines (E3 frames, E4 bundles, regex, bounded stand-ins ...)
     bounded = []
     for ename in plan.get('engines', []):
@@ -173,7 +201,8 @@ def check(prop, tier, seed, t0):
         used |= set(res.get('used_contracts', []))
         lib_used |= set(res.get('lib_used', []))
         facts |= set(res.get('trusted_facts', []))
-        mine = [o for o in res['obligations'] if prop in o['props'] or (res['kind'] == 'fn' and res['name'] in lemma_deps and o['kind'] in ('post', 'exc'))]
+        mine = [o for o in res['obligations'] if prop in o['props'] or (res['kind'] == 'fn' and res['name'] in lemma_deps and o['kind'] in ('post', 'exc'))
+                or (res['kind'] == 'fn' and res['name'] in dependency_fns and o['kind'] not in ('cover', 'canary'))]
         if not mine and res['kind'] != 'engine' and not res.get('shard'):
             undecided.append('%s %s generated no obligation for %s' % (res['kind'], res['name'], prop))
         for o in mine:
